@@ -207,6 +207,7 @@ package cors
 //@   ensures C04.response_headers: cfg != nil && result1 == nil ==> old(forall j :: 0 <= j && j < len(cfg.ResponseHeaders) ==> OkResHdr(cfg.ResponseHeaders[j], cfg.Credentialed))
 //@   ensures C05.every_permitted_config: cfg != nil && old(ConfigOK(cfg)) ==> result1 == nil
 //@   ensures C04.icfg_invariant: cfg != nil && result1 == nil ==> ICfgInv(result0)
+//@   ensures C05.validators_see_the_switches: cfg != nil ==> icfg.credentialed == cfg.Credentialed && icfg.privateNetworkAccess == cfg.ExtraConfig.PrivateNetworkAccess && icfg.privateNetworkAccessNoCors == cfg.ExtraConfig.PrivateNetworkAccessInNoCORSModeOnly && icfg.insecureOrigins == cfg.ExtraConfig.DangerouslyTolerateInsecureOrigins && icfg.subsOfPublicSuffixes == cfg.ExtraConfig.DangerouslyTolerateSubdomainsOfPublicSuffixes
 //@   ensures C15.switches_copied: cfg != nil && result1 == nil ==> result0.credentialed == cfg.Credentialed && result0.privateNetworkAccess == cfg.ExtraConfig.PrivateNetworkAccess && result0.privateNetworkAccessNoCors == cfg.ExtraConfig.PrivateNetworkAccessInNoCORSModeOnly && result0.insecureOrigins == cfg.ExtraConfig.DangerouslyTolerateInsecureOrigins && result0.subsOfPublicSuffixes == cfg.ExtraConfig.DangerouslyTolerateSubdomainsOfPublicSuffixes
 //@   ensures C15.lists_are_sets: cfg != nil && result1 == nil ==> (result0.allowAnyMethod == (exists j :: 0 <= j && j < len(cfg.Methods) && cfg.Methods[j] == "*")) && (result0.asteriskReqHdrs == (exists j :: 0 <= j && j < len(cfg.RequestHeaders) && cfg.RequestHeaders[j] == "*")) && (result0.allowAuthorization == (exists j :: 0 <= j && j < len(cfg.RequestHeaders) && cfg.RequestHeaders[j] != "*" && headers.IsValid(cfg.RequestHeaders[j]) && util.ByteLowercase(cfg.RequestHeaders[j]) == "authorization")) && ((result0.tree.root.schemes == nil && result0.tree.root.children == nil) == (exists j :: 0 <= j && j < len(cfg.Origins) && cfg.Origins[j] == "*"))
 
